@@ -66,3 +66,29 @@ Proof.
     cbn [negb]. destruct (b_version b =? CsVersion) eqn:E; [apply N.eqb_eq in E; contradiction|reflexivity].
 Qed.
 Print Assumptions C15_import_rejects_magic_version.
+
+(* ---- byte level: the blob layout and the parser of NewStreamWithCryptoState ---- *)
+From Cedar Require Import Model.Blob Proofs.C15Blob.
+
+(* The parser reads back exactly what the exporter wrote ... *)
+Theorem C15_blob_roundtrip : forall b, rb_wf b -> parse (ser b) = Some b.
+Proof. exact parse_ser. Qed.
+Print Assumptions C15_blob_roundtrip.
+
+(* ... and rejects EVERY strict prefix of a valid blob, *)
+Theorem C15_import_rejects_truncated :
+  forall b (n : nat), rb_wf b -> (n < length (ser b))%nat -> parse (firstn n (ser b)) = None.
+Proof. exact parse_truncated. Qed.
+Print Assumptions C15_import_rejects_truncated.
+
+(* a wrong magic and a wrong version. *)
+Theorem C15_import_rejects_magic : forall bs, firstn 4 bs <> magic -> parse bs = None.
+Proof. exact parse_bad_magic. Qed.
+Theorem C15_import_rejects_version : forall bs, be_dec (firstn 2 (skipn 4 bs)) <> CsVersion -> parse bs = None.
+Proof. exact parse_bad_version. Qed.
+Print Assumptions C15_import_rejects_version.
+
+Example C15_rb_wf_satisfiable :
+  rb_wf {| rb_flags := 13; rb_key := repeat x01 32; rb_eiv := repeat x02 16; rb_div := repeat x03 16;
+           rb_ectr := 5; rb_dctr := 7; rb_sdg := repeat x00 32; rb_rdg := repeat x00 32; rb_peer := [x3c; x3e] |}.
+Proof. unfold rb_wf. cbn. repeat split; try reflexivity; vm_compute; reflexivity. Qed.
